@@ -20,11 +20,11 @@
 package main
 
 import (
+	"bufio"
 	"context"
 	"encoding/json"
 	"errors"
 	"flag"
-	"bufio"
 	"fmt"
 	"hash/fnv"
 	"math/rand"
@@ -56,16 +56,16 @@ type Case struct {
 type PlanRes struct {
 	K         int    `json:"k"`
 	Stop      string `json:"stop"`
-	Outcome   string `json:"out"`   // "ok" | "hang" | "runaway" | "skipped"
-	At        string `json:"at,omitempty"`        // the call in progress when the deadline expired ("" otherwise)
-	Ids       []int  `json:"ids"`       // abstract ids of RelationID() after every Next that returned true (0 = not an id of the case)
-	EndFalse  bool   `json:"endf"`  // one of the planned Next calls returned false
-	After     string `json:"after"`     // result of one more Next after the stop / after the end
-	Err       string `json:"err"`       // class of Err() after that: "nil" | "canceled" | "dserr" | "?"
-	Gone      bool   `json:"gone"`      // producer goroutine gone: after Close (stop=close), after cancel without Close, after the end without Close
-	CloseRet  bool   `json:"cret"`  // every Close call made in the run returned (all plans end with a Close; stop=close makes two)
-	GoneEnd   bool   `json:"gend"`   // producer goroutine gone after the final Close
-	Completed int    `json:"comp"` // o.CompletedIndex after the final Close
+	Outcome   string `json:"out"`          // "ok" | "hang" | "runaway" | "skipped"
+	At        string `json:"at,omitempty"` // the call in progress when the deadline expired ("" otherwise)
+	Ids       []int  `json:"ids"`          // abstract ids of RelationID() after every Next that returned true (0 = not an id of the case)
+	EndFalse  bool   `json:"endf"`         // one of the planned Next calls returned false
+	After     string `json:"after"`        // result of one more Next after the stop / after the end
+	Err       string `json:"err"`          // class of Err() after that: "nil" | "canceled" | "dserr" | "?"
+	Gone      bool   `json:"gone"`         // producer goroutine gone: after Close (stop=close), after cancel without Close, after the end without Close
+	CloseRet  bool   `json:"cret"`         // every Close call made in the run returned (all plans end with a Close; stop=close makes two)
+	GoneEnd   bool   `json:"gend"`         // producer goroutine gone after the final Close
+	Completed int    `json:"comp"`         // o.CompletedIndex after the final Close
 }
 
 type Rec struct {
@@ -75,7 +75,7 @@ type Rec struct {
 
 var (
 	callDeadline = 6 * time.Second // a run that has not finished by callDeadline + 2*goneDeadline is a "hang"
-	goneDeadline = 2 * time.Second
+	goneDeadline = 4 * time.Second
 	maxHangs     = 2 // after that many hangs the remaining runs of this process are "skipped"
 	hangs        int32
 )
@@ -238,20 +238,57 @@ func producerFrames() bool {
 	return strings.Contains(s, "annotate.(*ChildFirstOrdering)") || strings.Contains(s, "annotate.NewChildFirstOrdering")
 }
 
+// ---------------------------------------------------------------- deadline-guarded execution
+
+// All runs execute on one long-lived worker goroutine, so that the goroutine count measured inside a run
+// is stable (main + worker).  A run that does not finish in time is reported as a hang; its worker (stuck
+// inside the library) is abandoned and a new one is started.
+type job struct {
+	f   func(at *atomic.Value) interface{}
+	at  *atomic.Value
+	out chan interface{}
+}
+
+var jobs chan job
+
+func worker(in chan job) {
+	for j := range in {
+		j.out <- j.f(j.at)
+	}
+}
+
+// guarded runs f on the worker; ok = false when the deadline expired (at = the call in progress).
+func guarded(f func(at *atomic.Value) interface{}) (res interface{}, at string, ok bool) {
+	if jobs == nil {
+		jobs = make(chan job)
+		go worker(jobs)
+	}
+	j := job{f: f, at: new(atomic.Value), out: make(chan interface{}, 1)}
+	j.at.Store("")
+	jobs <- j
+	t := time.NewTimer(callDeadline + 2*goneDeadline)
+	defer t.Stop()
+	select {
+	case r := <-j.out:
+		return r, "", true
+	case <-t.C:
+		atomic.AddInt32(&hangs, 1)
+		jobs = nil // abandon the stuck worker
+		return nil, j.at.Load().(string), false
+	}
+}
+
 // ---------------------------------------------------------------- one planned run
 
 func runPlan(c *Case, p Plan, m *idmap, own bool) PlanRes {
-	res := PlanRes{K: p.K, Stop: p.Stop, Outcome: "ok", Ids: []int{}, After: "skip", Err: "?"}
+	blank := PlanRes{K: p.K, Stop: p.Stop, Outcome: "ok", Ids: []int{}, After: "skip", Err: "?"}
 	if atomic.LoadInt32(&hangs) >= int32(maxHangs) {
-		res.Outcome = "skipped"
-		return res
+		blank.Outcome = "skipped"
+		return blank
 	}
-	var at atomic.Value
-	at.Store("")
-	done := make(chan struct{})
 	limit := 10*(len(c.Hist)+len(c.Req)) + 10
-	go func() {
-		defer close(done)
+	r, at, ok := guarded(func(at *atomic.Value) interface{} {
+		res := blank
 		base := runtime.NumGoroutine()
 		ds, ids := render(c, m, own)
 		ctx, cancel := context.WithCancel(context.Background())
@@ -270,10 +307,9 @@ func runPlan(c *Case, p Plan, m *idmap, own bool) PlanRes {
 			if n > limit {
 				res.Outcome = "runaway"
 				cancel()
-				return
+				return res
 			}
 		}
-		closeRets := 0
 		if p.Stop != "none" && (p.K+len(p.Stop))%2 == 0 {
 			// schedule choice: let the producer run up to its next blocking point before the stop
 			// (the other plans stop immediately; TLC explores both orders in the Model)
@@ -283,7 +319,6 @@ func runPlan(c *Case, p Plan, m *idmap, own bool) PlanRes {
 		case "close":
 			at.Store("close")
 			o.Close()
-			closeRets++
 		case "cancel":
 			at.Store("cancel")
 			cancel()
@@ -296,29 +331,20 @@ func runPlan(c *Case, p Plan, m *idmap, own bool) PlanRes {
 		res.Gone = waitGone(base)
 		at.Store("close-end")
 		o.Close()
-		closeRets++
 		res.CloseRet = true
 		at.Store("gone-end")
 		res.GoneEnd = waitGone(base)
 		if !res.GoneEnd && !producerFrames() {
-			res.GoneEnd = true // some unrelated goroutine (runtime) was counted
-			if !res.Gone {
-				res.Gone = true
-			}
+			res.GoneEnd, res.Gone = true, true // some unrelated goroutine was counted
 		}
 		res.Completed = o.CompletedIndex
-		at.Store("")
-	}()
-	t := time.NewTimer(callDeadline + 2*goneDeadline)
-	select {
-	case <-done:
-		t.Stop()
-	case <-t.C:
-		atomic.AddInt32(&hangs, 1)
-		// the script goroutine is abandoned; do not touch `res` any more (copy what is needed)
-		return PlanRes{K: p.K, Stop: p.Stop, Outcome: "hang", At: at.Load().(string), Ids: []int{}, After: "skip", Err: "?"}
+		return res
+	})
+	if !ok {
+		blank.Outcome, blank.At = "hang", at
+		return blank
 	}
-	return res
+	return r.(PlanRes)
 }
 
 func profileOf(line []byte, seed int64) (int, bool) {
@@ -430,13 +456,8 @@ func traceCase(line []byte, seed int64, idx int) []Event {
 	lg := &tlog{}
 	var hist, req, bad interface{} = c.Hist, c.Req, c.Bad
 	lg.add(Event{"e": "cfg", "hist": hist, "req": req, "bad": bad})
-	var at atomic.Value
-	at.Store("")
-	done := make(chan struct{})
 	limit := 10*(len(c.Hist)+len(c.Req)) + 10
-	var endEv Event
-	go func() {
-		defer close(done)
+	r0, at0, ok := guarded(func(at *atomic.Value) interface{} {
 		base := runtime.NumGoroutine()
 		ds, ids := render(&c, m, own)
 		ctx, cancel := context.WithCancel(context.Background())
@@ -519,22 +540,15 @@ func traceCase(line []byte, seed int64, idx int) []Event {
 		if !gone && !producerFrames() {
 			gone = true
 		}
-		endEv = Event{"e": "end", "gone": gone, "completed": o.CompletedIndex}
-		at.Store("")
-	}()
-	t := time.NewTimer(callDeadline + 2*goneDeadline)
-	select {
-	case <-done:
-		t.Stop()
-		lg.add(endEv)
-	case <-t.C:
-		atomic.AddInt32(&hangs, 1)
-		lg.mu.Lock()
-		evs := append([]Event(nil), lg.evs...)
-		lg.mu.Unlock()
-		return append(evs, Event{"e": "hang", "at": at.Load().(string)})
+		return Event{"e": "end", "gone": gone, "completed": o.CompletedIndex}
+	})
+	lg.mu.Lock()
+	evs := append([]Event(nil), lg.evs...)
+	lg.mu.Unlock()
+	if !ok {
+		return append(evs, Event{"e": "hang", "at": at0})
 	}
-	return lg.evs
+	return append(evs, r0.(Event))
 }
 
 func main() {
